@@ -6,12 +6,12 @@ import ESV.Comp.CgFor
 namespace ESV.Comp
 open ESV ESV.Beh
 
-/-- the statements of F0: plain operations, operations under a context, `return` / `end` / `hold` -/
+/-- the statements of F0 but `return`: plain operations (not named `Return`: a macro expansion turns every `Return` op into a
+jump to its end label, the language semantics only `return;`), operations under a context, `end` / `hold` -/
 def cgSimple : Stmt → Bool
-  | .op n _ => nameOK n
+  | .op n _ => nameOK n && n != Gen.op_return
   | .inl c _ n _ => isCtx c && nameOK n && n != Gen.op_return
   | .with_ c _ inner => isCtx c && f0Inner inner
-  | .ret => true
   | .end_ => true
   | .hold => true
   | _ => false
@@ -61,7 +61,7 @@ cases sharing a block (F3; not: a header op that ends the routine; a case block 
 `break_loop` / `jump` — `_process_block` may fold it into the header jumps — only if nothing can fall into it: it is the first
 block of the switch, or the block before it ends in `return` / `end` / `hold` / `break` / `continue` / `break_loop` / `jump`;
 `nf` of `cgCases`); from level 4 on user labels,
-`jump @l` and `call @l` anywhere (F4) -/
+`jump @l` and `call @l` anywhere (F4); from level 5 on macro calls (F5) -/
 def cgStmt (lv : Nat) : Stmt → Bool
   | .op n ps => cgSimple (.op n ps)
   | .inl c cp n ps => cgSimple (.inl c cp n ps)
@@ -81,7 +81,7 @@ def cgStmt (lv : Nat) : Stmt → Bool
   | .forever body => decide (2 ≤ lv) && cgStmts lv body
   | .while_ _ h body => decide (2 ≤ lv) && isTest h.name && cgStmts lv body
   | .for_ init h inc body => decide (2 ≤ lv) && isTest h.name && cgSimple init && cgSimple inc && cgStmts lv body
-  | _ => false
+  | .macroCall _ _ => decide (5 ≤ lv)
 def cgStmts (lv : Nat) : Stmts → Bool
   | .nil => true
   | .cons s r => cgStmt lv s && cgStmts lv r
@@ -140,28 +140,60 @@ theorem pm_congr {cx : Cx} {mc : M (List LItem)} {t1 t2 : Nat → Src.B → Src.
 
 /-- a halting control statement is the op of its name -/
 theorem ctl_simple (cx : Cx) (fuel : Nat) (env : Src.Env) (he : EnvOK cx env) (nm sn : String) (st : Src.Stmt)
-    (hn : nameOK nm = true) (hf : Beh.endsFlow nm = true) (hnm : nm = sn)
-    (htr : ∀ k b, Src.tr fuel [] env st k b = b.push (.halt ⟨sn, []⟩)) {s : St} {items : List LItem} {s' : St}
+    (hn : nameOK nm = true) (hf : Beh.endsFlow nm = true) (hnm : nm = sn) (hnr : nm ≠ Gen.op_return ∨ cx.cp.ret = none)
+    (htr : ∀ k b, Src.tr fuel cx.sm env st k b = b.push (.halt ⟨sn, []⟩)) {s : St} {items : List LItem} {s' : St}
     (h : opStmt nm [] s = .ok (items, s')) :
-    SimpleOK cx items (fun k b => Src.tr fuel [] env st k b) ∧ SameStk s s' := by
+    SimpleOK cx items (fun k b => Src.tr fuel cx.sm env st k b) ∧ SameStk s s' := by
   subst hnm
-  obtain ⟨a, b⟩ := op_simple cx fuel nm [] hn h env he
+  obtain ⟨a, b⟩ := op_simple cx fuel nm [] hn hnr h env he
   refine ⟨simpleOK_congr a (fun k b => ?_), b⟩
   rw [htr, Src.tr]
-  simp [hf, he.1, substEv_nil, convParams]
+  simp [hf, Src.substEv, convParams]
+
+/-- `return;` : the end of the routine, or inside a macro expansion the jump to the end label of the expansion -/
+theorem ret_pm (cx : Cx) (fuel : Nat) (env : Src.Env) (he : EnvOK cx env) :
+    PM cx (opStmt Gen.op_return []) (fun k b => Src.tr fuel cx.sm env .ret k b) env := by
+  intro s items s' h
+  cases hr : env.ret with
+  | none =>
+    obtain ⟨a, b⟩ := ctl_simple cx fuel env he Gen.op_return ESV.Spec.op_return .ret ctl_names.1 ctl_names.2.2.2.1 ctl_names.2.2.2.2.2.2.1
+      (.inr (he.retNone hr)) (fun k b => by rw [Src.tr]; simp [hr]) h
+    exact a.piece b env
+  | some kr =>
+    obtain ⟨e, hce⟩ := he.retSome hr
+    simp only [opStmt, bind_ok, pure_ok] at h
+    obtain ⟨o, s1, h1, h2⟩ := h
+    simp only [Prod.mk.injEq] at h2
+    obtain ⟨rfl, rfl⟩ := h2
+    obtain ⟨rfl, rfl⟩ := genOp_spec h1
+    have htr : ∀ k b, Src.tr fuel cx.sm env .ret k b = (b, kr) := by
+      intro k b; rw [Src.tr]; simp [hr]
+    have hst := sameStk_tickedOp s 1
+    refine ⟨hst.1, hst.2, hst.3, ?_, ?_, ?_, ?_, ?_, ?_⟩
+    · have : isCtx Gen.op_return = false := by decide
+      simp [lastNotCtx, isCtxL, this]
+    · intro x hx root e'; simp at hx; subst hx; cases e'
+    · intro h0; simp at h0
+    · intro l hl; simp [loneJump] at hl
+    · intro k b; rw [htr]; exact Grow.refl b
+    intro r i0 hp _ k b _ m j hex _ _
+    rw [htr]
+    have hit : ItemC cx.cp cx.rs ⟨r, i0⟩ (.op ⟨s.opc + 1, Gen.op_return, []⟩) := by simpa using hp.item (d := 0) rfl
+    exact ⟨R2.silL (lab_ret hit rfl hce) (hex.ret kr e hr hce), LabExport.same (fun _ _ => rfl)⟩
 
 /-- an op under a context: inline context, or a with-block -/
 theorem ctx_pm (cx : Cx) (fuel : Nat) (env : Src.Env) (he : EnvOK cx env) (c : String) (cp : ESV.Param) (n : String) (ps : List ESV.Param)
-    (hc : isCtx c = true) (hn : nameOK n = true) (inner : Src.Stmt)
-    (hspec : ∀ k b, Src.afterCtxSpecial env inner k b = some (b.push (.emit ⟨n, convParams ps⟩ k)))
+    (hc : isCtx c = true) (hn : nameOK n = true) (hnr : n ≠ Gen.op_return) (inner : Src.Stmt) (en : Ev)
+    (hen : (⟨n, convParams (ps.map cx.cp.sub)⟩ : Ev) = en)
+    (hspec : ∀ k b, Src.afterCtxSpecial env inner k b = some (b.push (.emit en k)))
     {mc : M (List LItem)}
     (hmc : ∀ s items s', mc s = .ok (items, s') → ∃ oc oo, items = [.op ⟨oc, c, [cp]⟩, .op ⟨oo, n, ps⟩] ∧ SameStk s s')
     {s : St} {items : List LItem} {s' : St} (h : mc s = .ok (items, s')) :
-    SimpleOK cx items (fun k b => Src.tr fuel [] env (.ctx c [convParam cp] inner) k b) ∧ SameStk s s' := by
+    SimpleOK cx items (fun k b => Src.tr fuel cx.sm env (.ctx c [convParam cp] inner) k b) ∧ SameStk s s' := by
   obtain ⟨oc, oo, rfl, hst⟩ := hmc s items s' h
-  refine ⟨ctx_simple cx c cp n ps hc hn oc oo _ (fun k b => ?_), hst⟩
+  refine ⟨ctx_simple cx c cp n ps hc hn hnr oc oo en (Src.substEv env.subst ⟨c, [convParam cp]⟩) hen (he.ev c [cp]) _ (fun k b => ?_), hst⟩
   rw [Src.tr]
-  simp only [hspec, he.1, substEv_nil]
+  simp only [hspec]
 
 theorem inl_shape {c : String} {cp : ESV.Param} {n : String} {ps : List ESV.Param} {s : St} {items : List LItem} {s' : St}
     (h : inlStmt c cp n ps s = .ok (items, s')) : ∃ oc oo, items = [.op ⟨oc, c, [cp]⟩, .op ⟨oo, n, ps⟩] ∧ SameStk s s' := by
@@ -192,51 +224,48 @@ theorem patchNone_if (e : Nat) (c : Bool) (l : List LItem) : patchNone e (if c t
 
 /-- the statements of F0 never look at the exits -/
 theorem simple_c (cx : Cx) (fuel : Nat) : ∀ (st : Stmt) (lb : Nat), cgSimple st = true → ∀ (env : Src.Env), EnvOK cx env →
-    ∀ (s : St) (items : List LItem) (s' : St), cStmt [] lb st s = .ok (items, s') →
-    SimpleOK cx items (fun k b => Src.tr fuel [] env (toSrcStmt st) k b) ∧ SameStk s s'
+    ∀ (s : St) (items : List LItem) (s' : St), cStmt cx.cm lb st s = .ok (items, s') →
+    SimpleOK cx items (fun k b => Src.tr fuel cx.sm env (toSrcStmt st) k b) ∧ SameStk s s'
   | .op n ps, lb, hg, env, he => by
     intro s items s' h
+    simp only [cgSimple, Bool.and_eq_true, bne_iff_ne, ne_eq] at hg
     simp only [cStmt, toSrcStmt] at h ⊢
-    exact op_simple cx fuel n ps (by simpa [cgSimple] using hg) h env he
-  | .ret, lb, _, env, he => by
-    intro s items s' h
-    simp only [cStmt, toSrcStmt] at h ⊢
-    exact ctl_simple cx fuel env he Gen.op_return ESV.Spec.op_return .ret ctl_names.1 ctl_names.2.2.2.1 ctl_names.2.2.2.2.2.2.1
-      (fun k b => by rw [Src.tr]; simp [he.2]) h
+    exact op_simple cx fuel n ps hg.1 (.inl hg.2) h env he
   | .end_, lb, _, env, he => by
     intro s items s' h
     simp only [cStmt, toSrcStmt] at h ⊢
     exact ctl_simple cx fuel env he Gen.op_end ESV.Spec.op_end .end_ ctl_names.2.1 ctl_names.2.2.2.2.1 ctl_names.2.2.2.2.2.2.2.1
-      (fun k b => by rw [Src.tr]) h
+      (.inl (by decide)) (fun k b => by rw [Src.tr]) h
   | .hold, lb, _, env, he => by
     intro s items s' h
     simp only [cStmt, toSrcStmt] at h ⊢
     exact ctl_simple cx fuel env he Gen.op_hold ESV.Spec.op_hold .hold ctl_names.2.2.1 ctl_names.2.2.2.2.2.1 ctl_names.2.2.2.2.2.2.2.2
-      (fun k b => by rw [Src.tr]) h
+      (.inl (by decide)) (fun k b => by rw [Src.tr]) h
   | .inl c cp n ps, lb, hg, env, he => by
     intro s items s' h
-    simp only [cgSimple, Bool.and_eq_true] at hg
+    simp only [cgSimple, Bool.and_eq_true, bne_iff_ne, ne_eq] at hg
     simp only [cStmt, toSrcStmt] at h ⊢
-    exact ctx_pm cx fuel env he c cp n ps hg.1.1 hg.1.2 _ (fun k b => by simp [Src.afterCtxSpecial, he.1, substEv_nil])
+    exact ctx_pm cx fuel env he c cp n ps hg.1.1 hg.1.2 hg.2 _ _ (he.ev n ps) (fun k b => by simp [Src.afterCtxSpecial])
       (fun s items s' h => inl_shape h) h
   | .with_ c cp inner, lb, hg, env, he => by
     intro s items s' h
     simp only [cgSimple, Bool.and_eq_true] at hg
     cases inner with
     | op n ps =>
-      simp only [f0Inner, Bool.and_eq_true] at hg
+      simp only [f0Inner, Bool.and_eq_true, bne_iff_ne, ne_eq] at hg
       simp only [cStmt, toSrcStmt] at h ⊢
-      exact ctx_pm cx fuel env he c cp n ps hg.1 hg.2.1 _ (fun k b => by simp [Src.afterCtxSpecial, he.1, substEv_nil])
+      exact ctx_pm cx fuel env he c cp n ps hg.1 hg.2.1 hg.2.2 _ _ (he.ev n ps) (fun k b => by simp [Src.afterCtxSpecial])
         (fun s items s' h => with_shape h) h
     | end_ =>
       simp only [cStmt, toSrcStmt] at h ⊢
-      exact ctx_pm cx fuel env he c cp Gen.op_end [] hg.1 ctl_names.2.1 _
-        (fun k b => by simp [Src.afterCtxSpecial, convParams, ctl_names.2.2.2.2.2.2.2.1]) (fun s items s' h => with_shape h) h
+      exact ctx_pm cx fuel env he c cp Gen.op_end [] hg.1 ctl_names.2.1 (by decide) _ ⟨ESV.Spec.op_end, []⟩ (by rw [← ctl_names.2.2.2.2.2.2.2.1]; rfl)
+        (fun k b => by simp [Src.afterCtxSpecial]) (fun s items s' h => with_shape h) h
     | hold =>
       simp only [cStmt, toSrcStmt] at h ⊢
-      exact ctx_pm cx fuel env he c cp Gen.op_hold [] hg.1 ctl_names.2.2.1 _
-        (fun k b => by simp [Src.afterCtxSpecial, convParams, ctl_names.2.2.2.2.2.2.2.2]) (fun s items s' h => with_shape h) h
+      exact ctx_pm cx fuel env he c cp Gen.op_hold [] hg.1 ctl_names.2.2.1 (by decide) _ ⟨ESV.Spec.op_hold, []⟩ (by rw [← ctl_names.2.2.2.2.2.2.2.2]; rfl)
+        (fun k b => by simp [Src.afterCtxSpecial]) (fun s items s' h => with_shape h) h
     | _ => simp [f0Inner] at hg
+  | .ret, _, hg, _, _ => by simp [cgSimple] at hg
   | .ite .., _, hg, _, _ => by simp [cgSimple] at hg
   | .label _, _, hg, _, _ => by simp [cgSimple] at hg
   | .jump _, _, hg, _, _ => by simp [cgSimple] at hg
@@ -251,7 +280,7 @@ theorem simple_c (cx : Cx) (fuel : Nat) : ∀ (st : Stmt) (lb : Nat), cgSimple s
   | .macroCall .., _, hg, _, _ => by simp [cgSimple] at hg
 
 theorem simple_pm (cx : Cx) (fuel : Nat) (st : Stmt) (lb : Nat) (hg : cgSimple st = true) (env : Src.Env) (he : EnvOK cx env) :
-    PM cx (cStmt [] lb st) (fun k b => Src.tr fuel [] env (toSrcStmt st) k b) env := by
+    PM cx (cStmt cx.cm lb st) (fun k b => Src.tr fuel cx.sm env (toSrcStmt st) k b) env := by
   intro s items s' h
   obtain ⟨a, b⟩ := simple_c cx fuel st lb hg env he s items s' h
   exact a.piece b env
